@@ -82,12 +82,12 @@ TIERS = {
     "quick": dict(
         fmt=dict(KeyLen=1, ValLen=2, TwoKeys=True, SecondToks={"END", "dq"}, NRows={1}),
         brt=dict(RowCounts={1, 2, 5}, CrossIO=False, MaxFields=6, BigItems={12, 20}, BigExps={24}, MaxHist=8, HistEvery=3),
-        sim=400, random=1500),
+        sim=400, random=1500, world=dict(MaxSteps=4, sessions=260, depth=12)),
     "thorough": dict(
         fmt=dict(KeyLen=2, ValLen=2, TwoKeys=True, SecondToks=set(ALPHABET), NRows={25}),
         brt=dict(RowCounts={1, 2, 5}, CrossIO=True, MaxFields=6, BigItems={3, 8, 12, 16, 20, 24}, BigExps={24, 25},
                  MaxHist=30, HistEvery=4),
-        sim=20000, random=20000),
+        sim=20000, random=20000, world=dict(MaxSteps=5, sessions=4000, depth=16)),
 }
 
 
@@ -744,6 +744,263 @@ def run_units(us, chunk=None):
     return recs
 
 
+
+# =========================================== the world level (BinRoundTripWorld.tla) ==============================
+# one session = one process: four files (1, 2 twins with byte-identical header text and different row counts; 3 same
+# column names / row size / user header, other column types; 4 header-less), two handle objects, results kept and
+# scribbled over by the caller, one read-only view per path whose writable base changes between overwrites
+WORLD_DTYPES = [
+    ([("id", "<i8"), ("flux", ">f4", (2,))], [("id", "<u8"), ("flux", ">i4", (2,))]),
+    ([("id", ">i4"), ("v", "<f8", (2,)), ("END", "S3")], [("id", ">u4"), ("v", "<c16"), ("END", "S3")]),
+    ([("id", "<i2"), ("tag", "S6")], [("id", "<u2"), ("tag", ">i2", (3,))]),
+]
+WORLD_HEADERS = [2, 7, 5, 9]        # ids of the header catalogue with >= 2 user keys
+WORLD_INV = ["CallInv", "HeldInv", "CountInv"]
+
+
+def world_setup(variant):
+    d1, d2 = WORLD_DTYPES[variant % len(WORLD_DTYPES)]
+    user = HEADERS[WORLD_HEADERS[(variant // len(WORLD_DTYPES)) % len(WORLD_HEADERS)]]
+    dts = {1: np.dtype(d1), 2: np.dtype(d1), 3: np.dtype(d2), 4: np.dtype(d1)}
+    if dts[1].itemsize != dts[3].itemsize or dts[1].names != dts[3].names or dts[1] == dts[3]:
+        raise MachineryError("world dtypes are not twins in names and row size")
+    return dts, user
+
+
+def world_rows(tokens, dt, tab):
+    """the rows the tokens stand for (the token itself in the first field, adversarial bytes elsewhere)"""
+    out = np.empty(len(tokens), dtype=dt)
+    for i, t in enumerate(tokens):
+        raw = random.Random("c01w:%d:%s" % (t, dt.descr)).getrandbits(8 * dt.itemsize).to_bytes(dt.itemsize, "little")
+        row = np.frombuffer(raw, dtype=dt).copy()
+        row["id"] = t
+        out[i] = row[0]
+        if tab.setdefault((repr(dt.descr), out[i:i + 1].tobytes()), t) != t:
+            raise MachineryError("row tokens %s collide in bytes" % (t,))
+    return out
+
+
+def world_obs(d, h, dt, user, tab):
+    """(table or None, header / row count or None) -> the observation record of BinRoundTripWorld.tla"""
+    o = {"err": "none", "n": -1, "rows": [], "tdok": True, "size": -9, "user": -1, "dok": False}
+    if d is not None:
+        if not isinstance(d, np.ndarray):
+            o["err"] = "not_an_array"
+            return o
+        flat = np.ascontiguousarray(d).reshape(-1)
+        o["n"] = int(flat.size)
+        o["tdok"] = bool(d.dtype == dt and project_dtype(d.dtype) == project_dtype(dt))
+        o["rows"] = [tab.get((repr(dt.descr), flat[i:i + 1].tobytes()), 0) for i in range(flat.size)] if d.dtype.itemsize == dt.itemsize \
+            else [0] * int(flat.size)
+    if h is not None:
+        if isinstance(h, dict):
+            size = h.get("_SIZE", -8)
+            try:
+                o["dok"] = bool(project_dtype(np.dtype(h["_DTYPE"])) == project_dtype(dt))
+            except Exception:  # noqa
+                o["dok"] = False
+            o["user"] = 1 if all(k in h and safe_eq(h[k], v) for k, v in user.items()) else 0
+        else:
+            size = h
+        if isinstance(size, bool) or not isinstance(size, (int, np.integer)) or not (-8 <= size < 2 ** 31):
+            size = -7
+        o["size"] = int(size)
+    return o
+
+
+def exec_session(args):
+    """run one session in this (fresh) process -> the record judged by BinRoundTripWorldTrace.tla"""
+    sid, sess = args
+    from esutil import sfile, recfile
+    import esutil.io as eio
+    dts, user = world_setup(int(sess["variant"]))
+    wdir = tempfile.mkdtemp(prefix="world-", dir=_process_dir())
+    paths = {p: os.path.join(wdir, "f%d.rec" % p) for p in (1, 2, 3, 4)}
+    tab = {}
+    v = int(sess["variant"])
+    nrows0 = {1: 2, 2: 3, 3: 2, 4: 2}
+    for p in (1, 2, 3, 4):
+        a = world_rows([100 * p + i for i in range(1, nrows0[p] + 1)], dts[p], tab)
+        if p == 4:
+            do_write(RAW_WRITERS[v % 2], paths[p], a, None)
+        else:
+            do_write(HDR_WRITERS[(v + p) % len(HDR_WRITERS)], paths[p], a, dict(user))
+    # the caller's buffers: one writable base per dtype, one read-only view object per path (made once)
+    bases = {repr(dts[1].descr): np.zeros(8, dtype=dts[1]), repr(dts[3].descr): np.zeros(8, dtype=dts[3])}
+    views = {}
+    for p in (1, 2, 3, 4):
+        views[p] = bases[repr(dts[p].descr)][:p + 2]
+        views[p].flags.writeable = False
+    sfobj = {1: sfile.SFile(), 2: sfile.SFile()}
+    handles = {1: None, 2: None}
+    hpath = {1: 0, 2: 0}
+    held = []
+    steps = []
+    try:
+        for j, s in enumerate(sess["steps"], 1):
+            op, p, h, e = s["op"], int(s["p"]), int(s["h"]), s["e"]
+            o = {"err": "none", "n": -1, "rows": [], "tdok": True, "size": -9, "user": -1, "dok": False}
+            try:
+                if op == "RH":
+                    hd = {"sfile.read_header": lambda: sfile.read_header(paths[p]),
+                          "io.read(header=only)": lambda: eio.read(paths[p], header="only"),
+                          "io.read_header": lambda: eio.read_header(paths[p])}[e]()
+                    held.append((None, hd, p))
+                    o = world_obs(None, hd, dts[p], user, tab)
+                elif op == "RT":
+                    dt = dts[p]
+                    if e == "sfile.read":
+                        d, hd = sfile.read(paths[p], header=True)
+                    elif e == "io.read":
+                        d, hd = eio.read(paths[p], header=True)
+                    elif e == "SFile.read":
+                        with sfile.SFile(paths[p]) as sf:
+                            d, hd = sf.read(header=True)
+                    elif e == "SFile[:]":
+                        with sfile.SFile(paths[p]) as sf:
+                            d = sf[:]
+                            hd = sf.get_header()
+                    elif e == "recfile.read":
+                        d, hd = recfile.read(paths[p], dt), None
+                    elif e == "Recfile.read":
+                        with recfile.Recfile(paths[p], dtype=dt) as r:
+                            d, hd = r.read(), None
+                    elif e == "Recfile[:]":
+                        with recfile.Recfile(paths[p], dtype=dt.descr) as r:
+                            d, hd = r[:], None
+                    elif e == "io.read(dtype)":
+                        d, hd = eio.read(paths[p], dtype=dt), None
+                    else:
+                        raise MachineryError("unknown reader %r" % e)
+                    held.append((d, hd, p))
+                    o = world_obs(d, hd, dt, user, tab)
+                elif op == "WR":
+                    k = p + 2
+                    base = bases[repr(dts[p].descr)]
+                    base[:k] = world_rows([2000 + 10 * j + i for i in range(1, k + 1)], dts[p], tab)   # MutateBase
+                    do_write(e, paths[p], views[p], None if p == 4 else dict(user))
+                elif op == "OP":
+                    if p == 4:
+                        handles[h] = recfile.Recfile(paths[p], mode="r+", dtype=dts[p])
+                    else:
+                        sfobj[h].open(paths[p], mode="r+")
+                        handles[h] = sfobj[h]
+                    hpath[h] = p
+                elif op == "CL":
+                    handles[h].close()
+                    handles[h], hpath[h] = None, 0
+                elif op == "AP":
+                    shape = [int(x) for x in s["shape"]]
+                    nn = int(np.prod(shape))
+                    dt = dts[hpath[h]]
+                    chunk = world_rows([1000 + 10 * j + i for i in range(1, nn + 1)], dt, tab).reshape(shape)
+                    handles[h].write(chunk)
+                elif op == "HR":
+                    dt, hh = dts[hpath[h]], handles[h]
+                    if e == "read":
+                        o = world_obs(hh.read(), None, dt, user, tab)
+                    elif e == "[:]":
+                        o = world_obs(hh[:], None, dt, user, tab)
+                    elif e == "read(header)":
+                        d, hd = hh.read(header=True)
+                        o = world_obs(d, hd, dt, user, tab)
+                    elif e == "nrows":
+                        o = world_obs(None, hh.nrows, dt, user, tab)
+                    else:
+                        raise MachineryError("unknown handle read %r" % e)
+                elif op == "SC":
+                    d, hd, _ = held[int(s["i"]) - 1]
+                    if hd is not None:
+                        keys = list(user)
+                        hd["_SIZE"] = -5
+                        hd[keys[0]] = "scribbled over by the caller"
+                        hd.pop(keys[1], None)
+                    if d is not None:
+                        d.reshape(-1).view(np.uint8)[:] = 0xEE
+                else:
+                    raise MachineryError("unknown step %r" % op)
+            except MachineryError:
+                raise
+            except Exception as ex:  # noqa
+                o = dict(o, err=type(ex).__name__, msg=str(ex)[:200])
+            steps.append({"s": {"op": op, "p": p, "h": h, "e": e, "shape": [int(x) for x in s["shape"]], "i": int(s["i"])},
+                          "obs": o})
+        final = [world_obs(d, hd, dts[p], user, tab) for d, hd, p in held]
+    finally:
+        for hh in list(handles.values()) + list(sfobj.values()):
+            try:
+                if hh is not None:
+                    hh.close()
+            except Exception:  # noqa
+                pass
+        shutil.rmtree(wdir, ignore_errors=True)
+    return {"id": sid, "steps": steps, "final": final}
+
+
+def _session_crash(unit, why):
+    sid, sess = unit
+    return {"id": sid, "steps": [{"s": dict(sess["steps"][0], shape=[int(x) for x in sess["steps"][0]["shape"]]),
+                                  "obs": {"err": "crashed", "msg": why, "n": -1, "rows": [], "tdok": True, "size": -9,
+                                          "user": -1, "dok": False}}], "final": []}
+
+
+def run_sessions(sessions):
+    """every session in a forked process of its own (the process IS the world)"""
+    _session_root()
+    return robust_map(exec_session, sessions, _session_crash, chunk=1)
+
+
+def judge_sessions(ctx, sessions, recs, what):
+    slimrecs = [{"id": r["id"], "steps": [{"s": st["s"], "obs": {k: v for k, v in st["obs"].items() if k != "msg"}}
+                                           for st in r["steps"]], "final": r["final"]} for r in recs]
+    rejects = tracecheck.validate(ctx, "BinRoundTripWorldTrace.tla", slimrecs, what=what, shard_size=2500)
+    byid = dict(sessions)
+    rid = {r["id"]: r for r in recs}
+    for sid, failing in sorted(rejects.items()):
+        if any(f[1] == "harness" for f in failing):
+            raise MachineryError("session %s is outside the world specification: %s" % (sid, failing))
+        seen = set()
+        for j, op, clause in failing:
+            st = rid[sid]["steps"][j - 1] if op != "kept_result" else None
+            entry = "kept_result" if st is None else \
+                ("%s(%s)" % (op, st["s"]["e"]) if op in ("HR",) else op)
+            sig = "world|%s|%s" % (entry, clause)
+            if sig in seen:
+                continue
+            seen.add(sig)
+            ctx.violation(sig, "session of %d calls in one process: %s fails clause %s of BinRoundTripWorld.tla%s" %
+                          (len(byid[sid]["steps"]), ("kept result %d" % j) if st is None else
+                           "step %d (%s %s)" % (j, op, st["s"]["e"]), clause,
+                           (" (%s: %s)" % (st["obs"]["err"], st["obs"].get("msg", "")) if st and st["obs"]["err"] != "none" else "")),
+                          {"world": byid[sid]})
+    return rejects
+
+
+def world_selftest(ctx, sessions, recs, rejects):
+    """corrupt an accepted session's observations: a kept header that changed, a short read through the handle"""
+    import copy
+    ok = [r for r in recs if r["id"] not in rejects]
+    a = next((r for r in ok if any(f["size"] >= 0 for f in r["final"])), None)
+    b = next((r for r in ok if any(st["s"]["op"] == "HR" and st["obs"]["n"] >= 2 for st in r["steps"])), None)
+    if a is None or b is None:
+        raise MachineryError("world self-test: no accepted session with a kept header / a read through a handle")
+    ra, rb, rc = copy.deepcopy(a), copy.deepcopy(b), copy.deepcopy(a)
+    next(f for f in ra["final"] if f["size"] >= 0)["size"] += 4
+    st = next(st for st in rb["steps"] if st["s"]["op"] == "HR" and st["obs"]["n"] >= 2)
+    st["obs"]["n"] -= 1
+    st["obs"]["rows"] = st["obs"]["rows"][:-1]
+    ra["id"], rb["id"], rc["id"] = 1, 2, 3
+    saved = ctx.traces
+    rej = tracecheck.validate(ctx, "BinRoundTripWorldTrace.tla",
+                              [{"id": r["id"], "steps": [{"s": s["s"], "obs": {k: v for k, v in s["obs"].items() if k != "msg"}}
+                                                         for s in r["steps"]], "final": r["final"]} for r in (ra, rb, rc)],
+                              what="self-test: corrupted session observations rejected", workers=1)
+    ctx.traces = saved
+    if not any(f[1] == "kept_result" and f[2] == "hdr_row_count" for f in rej.get(1, [])) or \
+            not any(f[2] == "row_count" for f in rej.get(2, [])) or 3 in rej:
+        raise MachineryError("world self-test failed: %s" % rej)
+
+
 # =========================================== case construction ====================================================
 LOOKALIKE = ("delim", "size", "dtype", "version", "nrows", "shape", "has_fields")
 _PLAUSIBLE = {"delim": ",", "size": 3, "dtype": [("zz", "<i2")], "version": "0.9", "nrows": 7, "shape": (2, 2),
@@ -1041,7 +1298,30 @@ def tlc_jobs(ctx, T, part):
             "BinRoundTripMC.tla", what="simulate %d wider dtypes" % T["sim"],
             cfg_text=cfg(constants=brt_consts(T), next_="NextSim"), workers=1, coverage=False, timeout=3000,
             simulate="num=%d" % T["sim"], extra=["-depth", str(11 + T["brt"]["MaxHist"]), "-seed", str(ctx.seed + 1)])
-    order = ["fmt", "fmt_export", "brt_export", "brt_sim", "brt", "fmt_selftest"]
+    if part("world"):
+        # 5. world level: the faithful mechanism satisfies the world invariants on every session of <= MaxSteps calls;
+        # the memoising header reader and the len()-counting handle must violate them (TLC finds the session)
+        W = T["world"]
+
+        def wc(mech, steps, free):
+            return {"Mech": mech, "MaxSteps": steps, "FreeEntries": free}
+        jobs["world"] = lambda: ctx.tlc(
+            "BinRoundTripWorldMC.tla", what="world machine: every call = its fresh-world outcome, kept results stay (exhaustive)",
+            cfg_text=cfg(constants=wc("faithful", W["MaxSteps"], False), invariants=WORLD_INV), workers=16, coverage=False,
+            timeout=3000)
+        jobs["world_memo"] = lambda: ctx.tlc(
+            "BinRoundTripWorldMC.tla", what="self-test: header memo keyed on the header text violates the world invariants",
+            cfg_text=cfg(constants=wc("memo_text", 4, False), invariants=WORLD_INV), workers=1, allow_violation=True,
+            coverage=False, timeout=3000)
+        jobs["world_len"] = lambda: ctx.tlc(
+            "BinRoundTripWorldMC.tla", what="self-test: handle counting len(chunk) violates the world invariants",
+            cfg_text=cfg(constants=wc("len_count", 4, False), invariants=WORLD_INV), workers=1, allow_violation=True,
+            coverage=False, timeout=3000)
+        jobs["world_sim"] = lambda: ctx.tlc(
+            "BinRoundTripWorldMC.tla", what="simulate %d sessions of %d calls" % (W["sessions"], W["depth"]),
+            cfg_text=cfg(constants=wc("faithful", W["depth"], True), next_="NextSim"), workers=1, coverage=False, timeout=3000,
+            simulate="num=%d" % W["sessions"], extra=["-depth", str(W["depth"] + 3), "-seed", str(ctx.seed + 7)])
+    order = ["fmt", "fmt_export", "brt_export", "brt_sim", "world_sim", "brt", "world", "fmt_selftest", "world_memo", "world_len"]
     names = [n for n in order if n in jobs]
     nthreads = 3 if int(os.environ.get("VH_MAX_WORKERS", "16")) <= 4 else 6
     out = {}
@@ -1093,6 +1373,30 @@ def run(ctx):
         rng = random.Random(ctx.seed * 1000003 + 101)
         groups.append(("random", [rand_case(rng, k) for k in range(T["random"])]))
         ctx.note(random_cases=T["random"])
+    if "world" in res:
+        if not ({"CallInv", "HeldInv"} & set(res["world_memo"].violated)):
+            raise MachineryError("self-test failed: the header memo does not violate the world invariants")
+        if not ({"CallInv", "CountInv"} & set(res["world_len"].violated)):
+            raise MachineryError("self-test failed: the len()-counting handle does not violate the world invariants")
+        if res["world"].distinct < 1000 or res["world"].depth < T["world"]["MaxSteps"] + 1:
+            raise MachineryError("vacuous world run: %d states, depth %d" % (res["world"].distinct, res["world"].depth))
+        sess = res["world_sim"].records.get("SESSION", [])
+        if len(sess) < T["world"]["sessions"] // 2:
+            raise MachineryError("simulation exported only %d sessions" % len(sess))
+        sessions = [(i, x) for i, x in enumerate(sess, 1)]
+        wrecs = run_sessions(sessions)
+        for _, x in sessions:
+            ctx.count({"world": x})
+        ops = collections.Counter(st["s"]["op"] for r in wrecs for st in r["steps"])
+        ctx.note(world_sessions=len(sessions), world_calls=dict(sorted(ops.items())),
+                 world_2d_appends_read_through_handle=sum(
+                     1 for r in wrecs if any(st["s"]["op"] == "AP" and len(st["s"]["shape"]) == 2 for st in r["steps"])
+                     and any(st["s"]["op"] == "HR" for st in r["steps"])))
+        ctx.log("%d sessions executed, one process each (%s)" % (len(wrecs), ", ".join("%s %d" % kv for kv in sorted(ops.items()))))
+        wrej = judge_sessions(ctx, sessions, wrecs, "judge sessions (BinRoundTripWorldTrace)")
+        ctx.log("%d sessions judged, %d rejected" % (len(wrecs), len(wrej)))
+        if not only:
+            world_selftest(ctx, sessions, wrecs, wrej)
     cases = [c for _, cs in groups for c in cs]
     if not cases:
         return
@@ -1256,6 +1560,12 @@ def selftest(ctx, recs):
 
 
 def replay(ctx, case):
+    if "world" in case:
+        sessions = [(1, case["world"])]
+        recs = run_sessions(sessions)          # the whole session, in one fresh process
+        print("replay: %s" % [(st["s"]["op"], st["s"]["e"], st["obs"]["err"]) for st in recs[0]["steps"]])
+        judge_sessions(ctx, sessions, recs, "replay session")
+        return
     recs = run_units([(1, case.get("prev"), case["cur"])])
     r = recs[0]
     print("replay: write %s; readers: %s" % (r["w"], [(o["reader"], o["err"], o.get("msg", "")) for o in r["obs"]]))
